@@ -33,6 +33,7 @@ BOUNDS = ("(1) Protocol: the real startprint/_sendnext/_send/_listen code is dri
           "frame is stored for resending. (3) _checksum: its source is translated from the AST to "
           "z3 bit-vectors and proved equal to the XOR of all bytes for every string of 1..8 bytes.")
 ASSUMPTIONS = [
+    "sender reuse is examined only for one earlier job (completed, or cancelled after two lines) over a clean link",
     "ONE schedule only: sender and reader steps strictly alternate (threading.Thread is stubbed); "
     "delivery under real thread schedules and response latencies is NOT claimed",
     "the M110 reset frame itself is never corrupted; after the K-th transmission the link is clean",
@@ -128,7 +129,9 @@ class Firmware:
         return ["ok"]
 
 
-def _make_protocol(job_name, K, first=0):
+def _make_protocol(job_name, K, first=0, previous=None):
+    """previous: None | 'completed' | 'cancelled' -- an earlier job streamed through the SAME sender
+    object (to the end, or cancelled after two of its lines) before the job under examination."""
     import importlib
     pc_mod = importlib.import_module("gscrib.printrun.printcore")
     gcoder = importlib.import_module("gscrib.printrun.gcoder")
@@ -154,6 +157,36 @@ def _make_protocol(job_name, K, first=0):
         real_thread = pc_mod.threading.Thread
         pc_mod.threading.Thread = NoThread
         try:
+            if previous is not None:
+                # an earlier job on the same sender, over a clean link
+                earlier = ["G28", "G1 X1 F900", "G1 X2", "G1 X3", "G1 X4", "M400"]
+                p.startprint(gcoder.GCode(earlier))
+                fw0 = Firmware()
+                seen0 = 0
+                for step in range(40):
+                    while seen0 < len(dev.written):
+                        frame = dev.written[seen0].decode("ascii")
+                        seen0 += 1
+                        dev.inbox = [(r + "\n").encode("ascii") for r in fw0.receive(frame, False)]
+                        p.stop_read_thread = False
+                        p._listen()
+                    if not p.printing:
+                        break
+                    if previous == "cancelled" and step == 3:
+                        p.cancelprint()
+                        break
+                    p.clear = True
+                    p._sendnext()
+                if p.printing:
+                    return V("earlier-job-does-not-finish", lambda: f"wire={dev.written!r}")
+                # let the firmware answer whatever is still on the wire, then start afresh
+                while seen0 < len(dev.written):
+                    frame = dev.written[seen0].decode("ascii")
+                    seen0 += 1
+                    dev.inbox = [(r + "\n").encode("ascii") for r in fw0.receive(frame, False)]
+                    p.stop_read_thread = False
+                    p._listen()
+                del dev.written[:]
             started = p.startprint(gcoder.GCode(list(job)))
         finally:
             pc_mod.threading.Thread = real_thread
@@ -393,6 +426,12 @@ def cells(tier):
         out.append(Cell(f"protocol|job=long|K=4|from-transmission={first}", _make_protocol("long", 4, first),
                         budget_s=300 if quick else 1800, must_reach=("finished",),
                         entry="printcore._sendnext/_listen"))
+    first_job = list(JOBS)[0]
+    for previous in ("completed", "cancelled"):
+        for job in ([first_job] if quick else list(JOBS)):
+            out.append(Cell(f"protocol|job={job}|K=2|after-a-{previous}-job", _make_protocol(job, 2, 0, previous),
+                            budget_s=300 if quick else 900, must_reach=("finished",),
+                            entry="printcore.startprint/cancelprint/_sendnext/_listen (sender reused)"))
     for length in ((1, 2) if quick else (1, 2, 3)):
         for lineno in ((0, 7, 42) if quick else (-1, 0, 7, 42, 999, 100000)):
             out.append(Cell(f"framing|len={length}|n={lineno}", _make_framing(length, lineno),
